@@ -66,6 +66,12 @@ RatRep(n0, v) == LET n == MinI(n0, rem) IN
   /\ img' = AddRun(img, v, n)
   /\ out' = Append(Append(Append(out, <<Esc, 1>>), <<n, 1>>), <<v, 1>>)       \* never merged: three distinct bytes
   /\ rem' = rem - n /\ UNCHANGED <<done, pal, cmp>>
+\* the last repeat record may announce more bytes than the picture still needs: the decoder takes what is missing
+RatOver(n0, v) ==
+  /\ ~done /\ rem > 0 /\ Format = "RAT" /\ AllowRep /\ n0 > rem /\ n0 <= 255
+  /\ img' = AddRun(img, v, rem)
+  /\ out' = Append(Append(Append(out, <<Esc, 1>>), <<n0, 1>>), <<v, 1>>)
+  /\ rem' = 0 /\ UNCHANGED <<done, pal, cmp>>
 MgeRep(n0, v) == LET n == MinI(n0, rem) IN
   /\ ~done /\ rem > 0 /\ Format = "MGE" /\ n >= 1 /\ n <= 255
   /\ img' = AddRun(img, v, n) /\ out' = Append(Append(out, <<n, 1>>), <<v, 1>>)
@@ -73,7 +79,7 @@ MgeRep(n0, v) == LET n == MinI(n0, rem) IN
 Finish == /\ ~done /\ rem = 0 /\ done' = TRUE
           /\ out' = IF Format = "MGE" THEN Append(out, <<0, 1>>) ELSE out
           /\ UNCHANGED <<img, rem, pal, cmp>>
-Next == \/ \E v \in Vals, n \in Lens : Raw(v, n) \/ RatRep(n, v) \/ MgeRep(n, v)
+Next == \/ \E v \in Vals, n \in Lens : Raw(v, n) \/ RatRep(n, v) \/ RatOver(n, v) \/ MgeRep(n, v)
         \/ \E ab \in NoiseAB, n \in Lens : Noise(ab[1], ab[2], n)
         \/ Finish
 Spec == Init /\ [][Next]_vars
@@ -85,7 +91,7 @@ RatDecode(bytes, total) ==
      IF s.left <= 0 THEN s
      ELSE IF s.mode = 0 THEN (IF b = Esc THEN [s EXCEPT !.mode = 1] ELSE [s EXCEPT !.runs = AddRun(@, b, 1), !.left = @ - 1])
      ELSE IF s.mode = 1 THEN [s EXCEPT !.mode = 2, !.count = b]
-     ELSE [s EXCEPT !.mode = 0, !.runs = AddRun(@, b, s.count), !.left = @ - s.count],
+     ELSE [s EXCEPT !.mode = 0, !.runs = AddRun(@, b, MinI(s.count, s.left)), !.left = @ - MinI(s.count, s.left)],
      [mode |-> 0, count |-> 0, runs |-> <<>>, left |-> total], bytes)
 \* MGE: pairs (count, value) up to the 0 count
 MgeDecode(bytes) ==
